@@ -383,6 +383,9 @@ class Run:
 
     def violation(self, kind, what, replay, no_input=False):
         """kind: impl-violates-property | correspondence | proof-obligation"""
+        self.nviol_total = getattr(self, "nviol_total", 0) + 1
+        if self.nviol_total <= 80:
+            log("violation[%s]: %s" % (kind, what[:400].replace("\n", "\\n")))
         # keep at most a handful of replays per run
         if len(self.violations) >= 5:
             self.violations.append(None)
